@@ -98,14 +98,16 @@ EffSet(k) == IF Scale(k) = 0 THEN << 0, 1000, 8000, 16000, 24000, 31000, 32000, 
 BSet(k) == IF Scale(k) = 0 THEN {0, 1, 7, 8, 63, 64, 127, 128, 191, 192, 247, 248, 255}
            ELSE {0, 1, 2, 126, 127, 128, 129, 253, 254, 255}
 
+\* (case 1 of every run is pinned to a preset with several committees per slot, the others are drawn)
 PresetB(k) ==
-    [SLOTS_PER_EPOCH |-> 2 + (R1(k, 2) % 3), MAX_COMMITTEES_PER_SLOT |-> 1 + (R1(k, 3) % 3),
-     TARGET_COMMITTEE_SIZE |-> 1 + (R1(k, 4) % 3), SHUFFLE_ROUND_COUNT |-> 1 + (R1(k, 5) % 2),
+    [SLOTS_PER_EPOCH |-> IF k = 1 THEN 2 ELSE 2 + (R1(k, 2) % 3),
+     MAX_COMMITTEES_PER_SLOT |-> IF k = 1 THEN 3 ELSE 1 + (R1(k, 3) % 3),
+     TARGET_COMMITTEE_SIZE |-> IF k = 1 THEN 1 ELSE 1 + (R1(k, 4) % 3), SHUFFLE_ROUND_COUNT |-> 1 + (R1(k, 5) % 2),
      MAX_EFFECTIVE_BALANCE |-> MaxEff(k), SYNC_COMMITTEE_SIZE |-> 4 * (1 + (R1(k, 6) % 2)),
      EPOCHS_PER_HISTORICAL_VECTOR |-> 8, MIN_SEED_LOOKAHEAD |-> 1, EPOCHS_PER_SYNC_COMMITTEE_PERIOD |-> 2,
      EFFECTIVE_BALANCE_INCREMENT |-> IF Scale(k) = 0 THEN 1000 ELSE 100]
 
-NVals(k) == LET spe == PresetB(k).SLOTS_PER_EPOCH IN spe + (R1(k, 7) % (MaxV - spe + 1))
+NVals(k) == LET spe == PresetB(k).SLOTS_PER_EPOCH IN IF k = 1 THEN MaxV ELSE spe + (R1(k, 7) % (MaxV - spe + 1))
 EpochB(k) == 2 + (R1(k, 8) % 3)
 
 ValsB(k) ==
